@@ -369,4 +369,142 @@ theorem tie_skel_blockReadFull : Gen.Skel.blockReadFull = [
   "return nil",
   "}"] := by rfl
 
+/-! further functions on this property's paths (any edit to them is reported) -/
+
+theorem tie_skel_blockWriteFull : Gen.Skel.blockWriteFull = [
+  "func blockWriteFull(connFd int, data []byte) error {",
+  "written := 0",
+  "for written < len(data) {",
+  "n, err := syscall.Write(connFd, data[written:])",
+  "if err != nil {",
+  "return err",
+  "}",
+  "written += n",
+  "}",
+  "return nil",
+  "}"] := by rfl
+
+theorem tie_skel_sendFd : Gen.Skel.sendFd = [
+  "func sendFd(connFd int, oob []byte) error {",
+  "err := syscall.Sendmsg(connFd, nil, oob, nil, 0)",
+  "return err",
+  "}"] := by rfl
+
+theorem tie_skel_blockReadOutOfBoundForFd : Gen.Skel.blockReadOutOfBoundForFd = [
+  "func blockReadOutOfBoundForFd(connFd int, oob []byte) (oobn int, err error) {",
+  "_, oobn, _, _, err = syscall.Recvmsg(connFd, nil, oob, 0)",
+  "return",
+  "}"] := by rfl
+
+theorem tie_skel_protocolInitializerV2_Version : Gen.Skel.protocolInitializerV2_Version = [
+  "func (p *protocolInitializerV2) Version() uint8 {",
+  "return 2",
+  "}"] := by rfl
+
+theorem tie_skel_protocolInitializerV3_Init : Gen.Skel.protocolInitializerV3_Init = [
+  "func (p *protocolInitializerV3) Init() error {",
+  "if p.session.isClient {",
+  "return p.clientInit()",
+  "}",
+  "return p.serverInit()",
+  "}"] := by rfl
+
+theorem tie_skel_protocolInitializerV3_Version : Gen.Skel.protocolInitializerV3_Version = [
+  "func (p *protocolInitializerV3) Version() uint8 {",
+  "return 3",
+  "}"] := by rfl
+
+theorem tie_skel_newProtocolAdaptor : Gen.Skel.newProtocolAdaptor = [
+  "func newProtocolAdaptor(session *Session) (pm *protocolAdaptor) {",
+  "return &protocolAdaptor{session: session}",
+  "}"] := by rfl
+
+theorem tie_skel_protocolAdaptor_getProtocolInitializer : Gen.Skel.protocolAdaptor_getProtocolInitializer = [
+  "func (p *protocolAdaptor) getProtocolInitializer() (protocolInitializer, error) {",
+  "if p.session.isClient {",
+  "return p.clientGetProtocolInitializer()",
+  "}",
+  "return p.serverGetProtocolInitializer()",
+  "}"] := by rfl
+
+theorem tie_skel_minInt : Gen.Skel.minInt = [
+  "func minInt(a, b int) int {",
+  "if a < b {",
+  "return a",
+  "}",
+  "return b",
+  "}"] := by rfl
+
+theorem tie_skel_asyncSendErr : Gen.Skel.asyncSendErr = [
+  "func asyncSendErr(ch chan error, err error) {",
+  "if ch == nil {",
+  "return",
+  "}",
+  "select {",
+  "case ch <- err:",
+  "default:",
+  "}",
+  "}"] := by rfl
+
+theorem tie_skel_MemfdCreate : Gen.Skel.MemfdCreate = [
+  "func MemfdCreate(name string, flags int) (fd int, err error) {",
+  "memFd, err := unix.MemfdCreate(memfdCreateName+name, 0)",
+  "if err != nil {",
+  "return 0, err",
+  "}",
+  "return memFd, nil",
+  "}"] := by rfl
+
+theorem tie_skel_Session_initMemManager : Gen.Skel.Session_initMemManager = [
+  "func (s *Session) initMemManager() error {",
+  "if !s.isClient {",
+  "return nil",
+  "}",
+  "mmapMapType := s.config.MemMapType",
+  "var (",
+  "err error",
+  "bm *bufferManager",
+  "qm *queueManager",
+  ")",
+  "if mmapMapType == MemMapTypeDevShmFile {",
+  "if bm, err = getGlobalBufferManager(s.config.ShareMemoryPathPrefix+bufferPathSuffix,",
+  "s.config.ShareMemoryBufferCap, true, s.config.BufferSliceSizes); err != nil {",
+  "os.Remove(s.config.ShareMemoryPathPrefix + bufferPathSuffix)",
+  "return fmt.Errorf(\"create share memory buffer manager failed ,error=%w\", err)",
+  "}",
+  "if qm, err = createQueueManager(s.config.QueuePath, s.config.QueueCap); err != nil {",
+  "os.Remove(s.config.QueuePath)",
+  "return fmt.Errorf(\"create share memory queue manager failed ,error=%w\", err)",
+  "}",
+  "} else {",
+  "if bm, err = getGlobalBufferManagerWithMemFd(s.config.ShareMemoryPathPrefix+bufferPathSuffix,",
+  "0, s.config.ShareMemoryBufferCap, true, s.config.BufferSliceSizes); err != nil {",
+  "return fmt.Errorf(\"create share memory buffer manager failed ,error=%w\", err)",
+  "}",
+  "if qm, err = createQueueManagerWithMemFd(s.config.QueuePath, s.config.QueueCap); err != nil {",
+  "return fmt.Errorf(\"create share memory queue manager failed ,error=%w\", err)",
+  "}",
+  "}",
+  "s.bufferManager = bm",
+  "s.queueManager = qm",
+  "return nil",
+  "}"] := by rfl
+
+theorem tie_skel_getConnDupFd : Gen.Skel.getConnDupFd = [
+  "func getConnDupFd(conn net.Conn) (*os.File, error) {",
+  "type hasFile interface {",
+  "File() (f *os.File, err error)",
+  "}",
+  "f, ok := conn.(hasFile)",
+  "if !ok {",
+  "return nil, fmt.Errorf(\"conn has no method File() (f *os.File, err error)\")",
+  "}",
+  "return f.File()",
+  "}"] := by rfl
+
+theorem tie_skel_Server : Gen.Skel.Server = [
+  "func Server(conn net.Conn, conf *Config) (*Session, error) {",
+  "return newSession(conf, conn, false)",
+  "}"] := by rfl
+
 end Tie.C12
